@@ -594,6 +594,22 @@ func transferIG(name, table string, extraFields []string, mod func(*config.Integ
 	return ig
 }
 
+// approvalIG: like transferIG but on the Approval event (the second log of every transaction)
+func approvalIG(name, table string, extraFields []string, mod func(*config.Integration)) config.Integration {
+	ig := config.Integration{Name: name, Enabled: true}
+	ig.Table.Name = table
+	ig.Table.Columns = append(ig.Table.Columns, approvalCols...)
+	ig.Event = approvalEvent
+	for _, f := range extraFields {
+		ig.Block = append(ig.Block, dig.BlockData{Name: f, Column: f})
+		ig.Table.Columns = append(ig.Table.Columns, wpg.Column{Name: f, Type: fieldType(f)})
+	}
+	if mod != nil {
+		mod(&ig)
+	}
+	return ig
+}
+
 // setupRoot validates the configuration with the real ValidateFix and creates the tables with the
 // real Migrate (DDL executed by fakepg).
 func (w *world) setupRoot(root *config.Root) error {
